@@ -168,10 +168,11 @@ theorem classify_stun (ci ci' : ClientInfo) (d r : Bytes) (hw : ∀ ip, ci.ipSrc
       rw [lit_http, u0]; decide
   · cases hl
 
-/-- the ONC-RPC/TCP responder's reply: record mark, then the reply of the builder -/
+/-- the ONC-RPC/TCP responder's reply: record mark, then the reply of the builder (in the final parser
+    state `s1`; the state stored afterwards is the initial one) -/
 theorem rpcReplTcp_shape (ovf : Bool) (s s' : RpcSt) (ci : ClientInfo) (d r : Bytes)
     (h : rpcReplTcp ovf s ci d = .ok (s', some r)) :
-    ∃ resp, rpcBuild s' ci = .ok resp ∧
+    ∃ s1 resp, rpcBuild s1 ci = .ok resp ∧
       r = [byte (resp.length / 16777216 % 256 + (if resp.length / 16777216 % 256 < 128 then 128 else 0)),
            byte (resp.length / 65536), byte (resp.length / 256), byte resp.length] ++ resp := by
   unfold rpcReplTcp at h
@@ -182,14 +183,14 @@ theorem rpcReplTcp_shape (ovf : Bool) (s s' : RpcSt) (ci : ClientInfo) (d r : By
     · cases h
     · rename_i resp hb
       simp only [Except.ok.injEq, Prod.mk.injEq, Option.some.injEq] at h
-      obtain ⟨rfl, h2⟩ := h
-      exact ⟨resp, hb, h2.symm⟩
+      obtain ⟨_, h2⟩ := h
+      exact ⟨_, resp, hb, h2.symm⟩
   · cases h
 
 theorem classify_rpcTcp (ovf : Bool) (s s' : RpcSt) (ci : ClientInfo) (d r : Bytes)
     (hlen : r.length ≤ 1204) (h : rpcReplTcp ovf s ci d = .ok (s', some r)) : classify r = .rpcTcp := by
-  obtain ⟨resp, hb, hr⟩ := rpcReplTcp_shape ovf s s' ci d r h
-  obtain ⟨body, hbody, hbl⟩ := rpcBuild_shape s' ci resp hb
+  obtain ⟨s1, resp, hb, hr⟩ := rpcReplTcp_shape ovf s s' ci d r h
+  obtain ⟨body, hbody, hbl⟩ := rpcBuild_shape s1 ci resp hb
   have hrl : resp.length < 2147483648 := by
     have : r.length = 4 + resp.length := by rw [hr]; simp only [List.length_append, List.length_cons, List.length_nil] <;> omega
     omega
